@@ -7,10 +7,12 @@
    The functions are the model of the Rust code (Model/Bsm.v over Model/Ecdsa.v, Model/Sig.v, Model/Keys.v;
    tied by the correspondence run) on the reference instance of the curve (ref_prims: Prim/Secp256k1.v over Z).
    Explicit premises of the completeness statements:
-     secp256k1_group  (Proofs/EcdsaSecp.v) — on valid points the concrete formulas form an abelian group with
-                      the Z-action smul, G has order exactly n, lift_x inverts (x, parity of y);
-                      NOT proved (no elliptic-curve library; associativity is out of reach here); that n and p
-                      are prime IS proved (Proofs/SecpPrimes.v);
+     secp256k1_group  (Proofs/EcdsaSecp.v) — on valid points: padd is associative,
+                      smul (a+b) P = padd (smul a P) (smul b P), smul (a*b) P = smul a (smul b P);
+                      NOT proved (no elliptic-curve library; associativity is out of reach here).  PROVED for the
+                      concrete formulas (Proofs/SecpGroupPartial.v, Proofs/SecpPrimes.v): closure of padd / pneg / smul,
+                      commutativity, P + (-P) = O, 1*P = P, parity of -P, lift_x inverts (x, parity of y),
+                      G has order exactly n (from the scalar laws), n and p are prime;
      nonce_x_small    — x(k*G) < n for the RFC 6979 nonce k of this key and message (k256 never records the
                       x-reduced recovery bit, so recovery of the other 2^-128 fraction fails in the library too).
    Soundness for other messages / other keys is _partial: it holds modulo collisions of SHA-256d (mod n) and of
